@@ -839,6 +839,11 @@ void mon_disconnect(const Run& run, const Ix&, Verdicts& v, vu::Result& res) {
                 bool hostile = false;
                 for (auto& b : h.bpkts) if (b.conn == c.id && (b.kind == BKind::hostile || b.kind == BKind::spurious || !b.wellformed || b.pkt.type == ref::DISCONNECT)) hostile = true;
                 if (hostile) continue;
+                // the library ended this connection with a DISCONNECT of its own (failed re-authentication, no reply for 20 s, ...):
+                // nothing may follow that packet, so the application's DISCONNECT had no place on it
+                bool own = false;
+                for (auto& k : h.cpkts) if (k.conn == c.id && k.dec.status == ref::Status::ok && k.dec.pkt.type == ref::DISCONNECT && library_own_disconnect(k.dec.pkt) && k.dec.pkt.rc != d.disc_rc) own = true;
+                if (own) { res.count("connections_ended_by_library_own_disconnect"); continue; }
                 v.add("C09", "C09:disconnect-never-written", op_str(d) + ": completed without a DISCONNECT on the wire although connection " + std::to_string(c.id) + " was established at " + std::to_string(c.t_established / 1e9) + " s and healthy");
                 break;
             }
